@@ -1,18 +1,66 @@
 """Texts for MANIFEST.json."""
 
-NOTES = ("All checks are runtime monitors over real executions of the code in /repo (VERIF_REPO overrides the tree). "
-         "Exit 0 = held on everything observed, 1 = VIOLATION (replay file written), 2 = INCONCLUSIVE (coverage floor missed, child died, watchdog). "
-         "known_findings.json lists recorded defects by mechanism (oracle clause + trigger); see DESIGN.md.")
+NOTES = ("All 20 checks are runtime monitors over real executions of the code in /repo (VERIF_REPO overrides the tree; VERIF_SEED is mixed into every case seed; "
+         "VERIF_PROCS limits the number of child processes, default 16). Exit 0 = held on everything observed, 1 = VIOLATION (replay file written, "
+         "`./check <id> --replay <file>` re-executes it and prints the event log), 2 = INCONCLUSIVE (coverage floor missed, child died, watchdog). "
+         "known_findings.json lists recorded defects by mechanism (oracle clause + trigger tag computed from the scenario, per pool); every recorded finding has a hand-written "
+         "history in the check's `known` family, so its KNOWN-FINDING line is printed on every run while the defect exists. No source hooks were needed: hooks.source_commits is empty. "
+         "Repository defects found by these checks and repaired are unguarded 'fix:' commits in /repo (see DESIGN.md section 6 and known_findings.json 'fixed').")
 
-LEVEL_DEFAULT = ("Exploration by runtime monitoring: thousands of randomized hostile scenarios (plus systematic placement sweeps) run against the real pool in a "
-                 "monitored event loop; oracles observe every handle boundary, every user-code point and every quiescent point. Decides the executions produced, "
-                 "reported with the situations actually reached; not a proof.")
+_POOL = ("Exploration by runtime monitoring. Real TaskPool/SimpleTaskPool objects run generated hostile user programs in a monitored asyncio loop "
+         "(handle counter, iteration counter, hook after every handle). Oracles: online assertions at every handle boundary and every user-code point (worker begin/resume, "
+         "callbacks, argument iterators, call sites), a shadow model around every public call, checks at logical quiescence, offline checks of the per-task event log. "
+         "Families: random scenarios (biased per property), placement sweeps (one or two perturbing operations at every loop iteration and every user-code point of 12 bases), "
+         "and hand-written histories for recorded findings. Decides the executions produced; evidence lists the situations actually reached and the coverage floors. Not a proof.")
 
-LEVEL_TEXT = {}
+LEVEL_DEFAULT = _POOL
 
-LEVEL_NOTE = ("Trusted: CPython 3.12.1 asyncio, the harness (vf/), the shadow model's reading of the property statement. "
-              "Schedules are natural asyncio schedules of generated user programs; quiescence is decided logically (no wall-clock verdicts in the pool/queue worlds).")
+LEVEL_TEXT = {
+    "C09": _POOL + " Additionally a differential 'no-trace' family: every scenario is re-run with the requests the model expects to be rejected left out, and the two event logs "
+                   "(generated names, task ids, iteration/handle stamps) must be identical.",
+    "C12": "Fault enumeration by runtime monitoring: randomized fault plans (raising bodies, call sites, plain/async end and cancel callbacks) plus placement sweeps of flush/close over "
+           "a raising base; after the faults, completion of all other requests and the capacity probe are checked, what flush/gather_and_close raise is compared by identity with the injected "
+           "exception objects, and a differential 'twin' family re-runs each scenario with every injected failure replaced by success at the same point and demands an identical event log.",
+    "C16": "Exploration by runtime monitoring of the real ControlSession/ControlParser through a real StreamReader and a recording writer: for 4 pool classes x sampled terminal widths the "
+           "handshake reply, the help of every public member enumerated with inspect (not from the parser), the exact command set and the rejection of non-public names are checked.",
+    "C17": "Translation validation by differential execution: each generated well-formed command line (the program) is sent to a served pool while the equivalent direct Python call is made "
+           "on an identically configured twin pool; reply text, public state and the multiset of worker/callback invocations (tagged by a contextvar) must agree after every command.",
+    "C18": "Exploration by runtime monitoring of 1-3 simultaneous real sessions fed valid, invalid-by-construction, mutated, junk and probe lines (whole, split across segments, batched): "
+           "writes per line are counted at logical quiescence, replies to state-independent lines are compared with a fresh solo session, probe replies with the pool's own value, "
+           "stdout/stderr are captured, SystemExit is trapped.",
+    "C19": "Exploration by runtime monitoring over real loopback TCP and Unix sockets: real Control servers, raw stream clients with scripted connect / deferred handshake / command / park / "
+           "disconnect (close, half-close, abort) and the bundled CLI client as a subprocess, with the stop placed anywhere; verdicts are taken at socket quiescence "
+           "(consecutive idle 1 ms ticks with an empty selector); a 60 s wall-clock watchdog yields INCONCLUSIVE only.",
+    "C20": "Fault enumeration by runtime monitoring of the real Queue: every single cancellation placement (consumer x loop iteration) over 6 producer/consumer bases and every pair on 3 bases "
+           "is enumerated completely in both tiers, plus random scenarios; task_done() calls are counted per consumer by a harness subclass, join() is judged against the balance of puts and "
+           "exited blocks at event granularity.",
+}
 
-TECHNIQUE = {}
+LEVEL_NOTE = ("Trusted: CPython 3.12.1 asyncio, the harness (vf/), the shadow model's reading of the property statement. Schedules are natural asyncio schedules of generated user programs "
+              "(no yields injected into library code, ready queue never reordered); quiescence is decided logically (no wall-clock verdicts except C19's socket ticks). "
+              "Coverage floors were calibrated on the repaired tree (0.4 x minimum over 5 seeds).")
+
+TECHNIQUE = {
+    "C01": "runtime monitoring: online invariant at every handle boundary and user-code point (live workers, num_running vs size; is_full at quiescence)",
+    "C02": "runtime monitoring: conservation check at quiescence (num_running = workers in flight), exactly-once end callback over the event log, capacity probe",
+    "C03": "runtime monitoring: per-task trace checker (event-order regex, callback state probes via cancel(id) error class, counter equation at every boundary)",
+    "C04": "runtime monitoring: shadow-model count/argument-identity checker over invocation events, lock/close placed by sweeps",
+    "C05": "runtime monitoring: online bounds (num_concurrent, laziness via counting iterator) + work-conservation at quiescence + offline exactly-once/order",
+    "C06": "runtime monitoring: shadow model of owed vs observed CancelledError deliveries per task, error-class oracle around every cancel() call",
+    "C07": "runtime monitoring: no-start/no-pull-after online checks, delivery accounting per route, sibling completion at final quiescence",
+    "C08": "runtime monitoring: return-instant snapshot, empty log suffix after close, until_closed waiters, closed-pool rejection probes, progress by quiescence",
+    "C09": "runtime monitoring: public-state snapshot around every rejected call + differential no-trace twin run",
+    "C10": "runtime monitoring: get_group_ids vs harness attribution (task names, callback closures) at quiescence; disjointness at every boundary; name pattern/freshness per request",
+    "C11": "runtime monitoring: density of ids learned at every boundary, task-name/callback-id agreement, distinct names of unnamed pools",
+    "C12": "runtime monitoring with fault injection: identity of raised exceptions, completion + capacity after faults, differential success/failure twin run",
+    "C13": "runtime monitoring: must-forget / must-keep sets per flush interval, per-id probes at quiescence, KeyError detection in pool tasks",
+    "C14": "runtime monitoring: reference-model comparison of stop()'s return value and cancellation deliveries over gap-producing histories",
+    "C15": "runtime monitoring: pool_size read at every boundary, admission judged at task creation, waiting-with-room check at quiescence",
+    "C16": "runtime monitoring: reply checker over enumerated members x terminal widths",
+    "C17": "differential execution against a twin pool driven by direct calls (translation validation of command lines)",
+    "C18": "runtime monitoring: write counter per line at quiescence, reference-session comparison, captured stdout/stderr",
+    "C19": "runtime monitoring over real sockets with socket-quiescence verdicts and CLI subprocess output checking",
+    "C20": "runtime monitoring: exhaustive cancellation-placement sweep + random, task_done counting, join balance oracle",
+}
 
 NOT_YET = {}
